@@ -6,6 +6,7 @@ import gens
 FAMILIES = ['component']
 BRIDGES = ['br_conv_', 'br_mkperm_', 'br_add_']
 PROPS_V = 'Props/C14.v'
+EXTRA_TARGETS = ['Model/NumCheck.vo']
 BUDGET = {'quick': 1500, 'thorough': 40000}
 ORACLE_RULE = ('all 9 ordered unit pairs x built-in components and random molar masses x values 0 and 1e-12..1e6; plus the '
                'malformed stream (no component, unknown unit, negative value); non-trivial = source and target units differ')
@@ -88,6 +89,14 @@ def oracle(rng, tier):
         except Exception as e:
             ok, detail = False, 'raised %s: %s' % (type(e).__name__, e)
         yield {'kind': '%s->%s' % (a, b), 'case': case, 'ok': ok, 'detail': detail, 'nontrivial': a != b}
+
+
+def correspondence(tier, seed):
+    import corr_numeric
+    budget = {'convert': 60}
+    if tier == 'thorough':
+        budget = {k: v * 12 for k, v in budget.items()}
+    return corr_numeric.run(seed, budget, nmax=30 if tier == 'quick' else 200, tag='C14')
 
 
 def replay(rep):
